@@ -73,6 +73,13 @@ def polynomial_from_attributes(
         polynomial(0)
 
     """
+    if dtype is None and len(coefficients):
+        # like numpy.array([...]): the common type of ALL coefficients, also of
+        # those about to be pruned, so that the result neither truncates later
+        # terms to the type of the first one nor depends on the retain options.
+        dtype = numpy.result_type(
+            *[numpy.asarray(coefficient) for coefficient in coefficients]
+        )
     exponents, coefficients, names = clean.postprocess_attributes(
         exponents=exponents,
         coefficients=coefficients,
